@@ -1,6 +1,6 @@
 (* C20 property theorems: statements closed by [exact lemma] + Print Assumptions. *)
 From V Require Import Common.Base C20.Protocol C20.ProtocolProofs C20.CtxLTS C20.CtxSpec C20.CtxProofs
-  C20.CtxMonA C20.CtxMonB C20.CtxMonC C20.PluginSpec C20.Plugin C20.PluginProofs.
+  C20.CtxMonA C20.CtxMonB C20.CtxMonC C20.CtxStale C20.PluginSpec C20.Plugin C20.PluginProofs.
 
 (* writeUint32 / readUint32: little-endian round trip modulo 2^32, any trailing bytes *)
 Theorem uint32_roundtrip : forall n r, read32 (le32 n ++ r) = Some (n mod 4294967296, r).
@@ -54,6 +54,25 @@ Print Assumptions deadlock_free.
 Theorem history_checker_sound : forall tr s, run init tr s -> history_ok tr = true.
 Proof. exact history_sound. Qed.
 Print Assumptions history_checker_sound.
+
+(* The order "clear activeBuild, then release the waiters" of rebuild() is what
+   makes this hold: once the waiters of build b have been released (b_done in
+   state s1), a thread created afterwards (any API call made later, or a
+   goroutine started by a later Watch) never holds a reference to b and never
+   returns b - a Rebuild that starts after b's waiters were released never
+   returns b.  Rule S2 of history_ok ("the returned build had not been
+   returned to anybody when the call was made") is the observable form of this
+   statement; it is what rejects the histories recorded when Done() is moved
+   before the critical section that clears activeBuild. *)
+Theorem no_stale_join : forall tr1 s1 tr2 s2 b,
+  run init tr1 s1 -> (b < nb s1)%nat -> b_done (blds s1 b) = true -> run s1 tr2 s2 ->
+  forall t, (nt s1 <= t)%nat -> (t < nt s2)%nat ->
+    ref_of (t_pc (thr s2 t)) <> Some b /\ ret_build (t_pc (thr s2 t)) <> Some b.
+Proof.
+  intros tr1 s1 tr2 s2 b R1 Hb Hd R2.
+  exact (proj2 (proj2 (proj2 (no_stale_join_run s1 tr2 s2 R2 (sinv_reachable s1 (ex_intro _ tr1 R1)) b Hb Hd)))).
+Qed.
+Print Assumptions no_stale_join.
 
 (* When a Dispose call returns - whichever of several concurrent Dispose
    calls it is - the context is disposed, no build is active and no thread is
